@@ -5,7 +5,9 @@
   the observable actions (`Tok`) it performs in response.  The monitor keeps plain sets of
   heights (`Nat → Bool`) and counters; it never mentions the worker's queue, `BlockRanges`, or
   any function of the model.  A block is *started* when the sampler records its sampling metadata
-  (`Tok.metaUpd`, the first observable action of a start).
+  (`Tok.metaUpd`, the first observable action of a start in the code as it is); a `SamplingStarted` event
+  or a share request for a block that is not counted as in progress is treated as a start too, so a start
+  cannot escape the check by skipping the metadata record.
 
     startOK v h  :=  h is stored, is known to the sampler (seen at its last reading of the store),
                      not known sampled, not in progress, not promised to the pruner, not timed out
@@ -106,6 +108,17 @@ def applyEv (v : View) (ev : Ev) (rejected : Bool) : View :=
   | .prune _ => v
   | .answer _ _ _ => v
 
+/-- starting block `h` -/
+def start (v : View) (h : Nat) : Option View :=
+  if startOK v h then some { v with inProgress := add v.inProgress h, nInProgress := v.nInProgress + 1 }
+  else none
+
+/-- an action that belongs to the sampling of block `h` (its `SamplingStarted` event, a request for one of its
+    shares): either `h` is already counted as in progress, or this action IS the start of `h` (a start is
+    recognised by whichever of its actions comes first) and must satisfy `startOK` -/
+def partOf (v : View) (h : Nat) : Option View :=
+  if v.inProgress h then some v else start v h
+
 /-- one observable action: `none` = the property is violated -/
 def onTok (v : View) : Tok → Option View
   | .scan => some { v with known := fun x => v.stored x && !v.storeSampled x, newest := v.storeHead }
@@ -113,9 +126,9 @@ def onTok (v : View) : Tok → Option View
   | .result h to =>
     some { v with inProgress := del v.inProgress h, nInProgress := v.nInProgress - 1,
                   timedOut := if to then add v.timedOut h else v.timedOut }
-  | .metaUpd h _ =>
-    if startOK v h then some { v with inProgress := add v.inProgress h, nInProgress := v.nInProgress + 1 }
-    else none
+  | .metaUpd h _ => start v h
+  | .started h _ _ => partOf v h
+  | .req h _ => partOf v h
   | .grant h ok => if ok then some { v with promised := add v.promised h } else some v
   | .fatal => some { v with alive := false, connected := false, known := none', newest := none,
                             inProgress := none', nInProgress := 0, timedOut := none' }
@@ -130,6 +143,10 @@ def walk (v : View) : List Tok → Option View
 /-- the whole check for one stimulus -/
 def specOK (v : View) (ev : Ev) (toks : List Tok) : Bool :=
   (walk (applyEv v ev (toks == [Tok.storeErr])) toks).isSome
+
+/-- the check for a stimulus that is an answer which is neither a sample nor a timeout: the monitor's picture is
+    unchanged (the share stays pending: it was not retrieved), the actions are walked as usual -/
+def specBadAnswer (v : View) (toks : List Tok) : Bool := (walk v toks).isSome
 
 /-- the first action that breaks the property, for diagnostics -/
 def firstBad (v : View) : List Tok → Option Tok
